@@ -26,6 +26,7 @@ pub fn f64_pool() -> Vec<f64> {
         f64::NEG_INFINITY,
         f64::NAN,
         f64::from_bits(0xfff8_0000_0000_1234),
+        f64::from_bits(0xfff8_0000_0000_0000),
         2.0,
         3.0,
         -2.5,
